@@ -25,6 +25,8 @@ class Fn:
         let_chains=False,
         proof_note="",
         external_body=False,
+        attrs=(),
+        loop_open=None,
     ):
         self.file = file
         self.path = path if isinstance(path, list) else [p.strip() for p in path.split("::")]
@@ -44,6 +46,10 @@ class Fn:
         self.proof_note = proof_note
         # assumed contract: the body is kept for rustc but NOT verified
         self.external_body = external_body
+        # verifier attributes placed in front of the fn (e.g. exec_allows_no_decreases_clause)
+        self.attrs = tuple(attrs)
+        # ghost snapshots / assertions placed at the start of the body of loop #k
+        self.loop_open = loop_open or {}
 
 
 class Type:
@@ -122,9 +128,12 @@ def emit(unit):
                 rw.desugar_let_chains()
                 if "R8" not in rw.rules:
                     raise ExtractError("%s: let_chains requested but none found" % label)
-            rw.splice_fn(it.ret, it.spec, it.loops, it.before, it.after_open)
+            rw.splice_fn(it.ret, it.spec, it.loops, it.before, it.after_open, it.loop_open)
             if it.rename:
                 rw.subst("fn " + it.name, "fn " + it.rename, 1)
+            for at in it.attrs:
+                rw.text = "#[%s]\n" % at + rw.text
+                rw.hit("ATTR-" + at)
             if it.external_body:
                 rw.text = "#[verifier::external_body]\n" + rw.text
                 rw.hit("ASSUMED-external_body")
